@@ -231,7 +231,7 @@ func runClassF(m *mp.Model, r *rng.R, n int, fonts text.FontConfiguration, out *
 		sub := r.Sub()
 		seed := sub.Seed()
 		lvl := i % 4
-		doc := GenClassF(sub, GenOpts{Level: lvl, Sides: i%8 >= 4}, "")
+		doc := GenClassF(sub, GenOpts{Level: lvl, Sides: i%8 >= 4, LongParent: i%5 == 3}, "")
 		if err := classFCase(m, doc, seed, fonts, out, i%5 == 0); err != nil {
 			return err
 		}
@@ -245,6 +245,11 @@ func classFCase(m *mp.Model, doc *ClassF, seed uint64, fonts text.FontConfigurat
 	nontrivial := true
 	var pages []*bo.PageBox
 	var rec *render.Rec
+	// per-document guard: paginate_progress (WR.Props.C02) bounds the pages of a class-F document by
+	// 2*#lines+1; the layout may be repeated by the re-pagination loop (at most 8 times)
+	pageLimit := 8*(2*doc.NTok+2) + 8
+	LimitPages(pageLimit)
+	defer LimitPages(0)
 	o := render.Guard(20*time.Second, func() {
 		if draw {
 			d, err := render.Full(doc.HTML, fonts, render.Opts{})
@@ -255,6 +260,12 @@ func classFCase(m *mp.Model, doc *ClassF, seed uint64, fonts text.FontConfigurat
 			pages, _, _ = render.LayoutOnly(doc.HTML, fonts, render.Opts{})
 		}
 	})
+	if IsPageLoop(o.Panic) {
+		out.Count(doc.HTML, true)
+		out.Add(res.Finding{Kind: "judge", Op: "judge:paginate_progress", Input: doc.HTML, Key: "page-loop", Seed: seed,
+			Reason: fmt.Sprintf("the page loop does not end: %s for a class-F document of %d lines (theorem paginate_progress of WR.Props.C02: the model ends within %d pages)", o.Panic, doc.NTok, 2*doc.NTok+1)})
+		return nil
+	}
 	if o.Timeout {
 		// a loaded machine can make a 1-10 ms layout miss the limit: run it again alone with a long limit;
 		// a real hang is C01's finding, here the case is skipped
